@@ -188,6 +188,110 @@ pub(super) fn buffered_case(cx: &mut Ctx, which: u64, limit: usize, xs: &[i64], 
     }
 }
 
+/// hook-driven executor history with shutdown (coq/C18/ModelLife.v, kind 22): task code = submit, 10+w = find_task of worker w,
+/// 30+w = balance of worker w, 7 = shutdown(), 5 = total_queued; then every worker asks for work until a whole pass is empty
+pub(super) fn life_hist_case(cx: &mut Ctx, nw: usize, cap: usize, ops_in: &[i64], force: bool) {
+    let cell = "WorkStealingExecutor/shutdown history (hook)";
+    let ops: Vec<i64> = ops_in.iter().cloned().filter(|&o| is_task_code(o) && code_beh(o) == 0 || o == 5 || o == 7 || (10..10 + nw as i64).contains(&o) || (30..30 + nw as i64).contains(&o)).collect();
+    let case = json!({"cell": "lifehist", "kind": 22, "nw": nw, "cap": cap, "ops": ops});
+    let nsub = ops.iter().filter(|&&o| o >= 1000).count();
+    let ov = ops.clone();
+    let r = guarded(move || {
+        let ex = match WorkStealingExecutor::verif_new_paused(nw, cap) { Ok(e) => e, Err(_) => return None };
+        let counters: Arc<Vec<AtomicU32>> = Arc::new((0..nsub + 1).map(|_| AtomicU32::new(0)).collect());
+        let mut obs: Vec<i64> = vec![];
+        let mut accepted = vec![false; nsub];
+        let mut out = vec![0u32; nsub];
+        let mut problems: Vec<String> = vec![];
+        let mut next = 0usize;
+        let mut down = false;
+        let took = |t: Option<Box<dyn Task>>, out: &mut Vec<u32>| -> i64 { match t { None => -1, Some(t) => { let id = task_id(&t); if id >= 0 && (id as usize) < out.len() { out[id as usize] += 1; } id } } };
+        for &o in &ov {
+            if o >= 1000 {
+                let ok = submit_k(&ex, 0, next, CountTask { id: next, prio: code_prio(o), steal: code_steal(o), beh: 0, counters: counters.clone(), nest: None }).is_ok();
+                if ok && down && problems.is_empty() { problems.push(format!("task {} was accepted after shutdown(): every worker has been aborted, nothing will run it", next)); }
+                accepted[next] = ok;
+                obs.push(ok as i64);
+                next += 1;
+            } else if o >= 30 { ex.verif_balance((o - 30) as usize); }
+            else if o >= 10 { let t = ex.verif_find_task((o - 10) as usize); obs.push(took(t, &mut out)); }
+            else if o == 7 { let e2 = ex.clone(); let _ = with_rt(0, async move { e2.shutdown().await }); down = true; }
+            else { obs.push(ex.total_queued() as i64); }
+        }
+        obs.push(-7);
+        for _ in 0..(nsub + 2) {
+            let mut any = false;
+            for w in 0..nw { let t = ex.verif_find_task(w); let v = took(t, &mut out); if v >= 0 { obs.push(v); any = true; } }
+            if !any { break; }
+        }
+        obs.push(-7);
+        let left = ex.total_queued();
+        obs.push(left as i64);
+        for i in 0..nsub {
+            if accepted[i] && out[i] == 0 { problems.push(format!("task {} was accepted but no worker's find_task ever returns it (total_queued = {})", i, left)); break; }
+            if out[i] > 1 { problems.push(format!("task {} was handed out {} times", i, out[i])); break; }
+            if !accepted[i] && out[i] > 0 { problems.push(format!("task {} was refused by submit but handed out", i)); break; }
+        }
+        Some((obs, problems))
+    });
+    match r {
+        Err(p) => { cx.sum.eval(cell, &format!("lh {} {} {:?}", nw, cap, ops), true); cx.sum.fail(cell, None, case, &format!("panicked: {}", p)) }
+        Ok(None) => { cx.sum.dist("hook_missing_shutdown_history_cell_skipped"); }
+        Ok(Some((obs, problems))) => {
+            cx.sum.eval(cell, &format!("lh {} {} {:?}", nw, cap, ops), nsub >= 2 && ops.contains(&7));
+            cx.sum.cell_status(cell, "M+S");
+            let stripped: Vec<i64> = ops.iter().map(|&o| if o >= 1000 { o % 10000 } else { o }).collect();
+            cx.coq(22, nw as u64, cap as u64, &stripped, &obs, &case, force);
+            if let Some(p) = problems.first() { cx.sum.fail(cell, None, case, p); }
+        }
+    }
+}
+
+/// one FiberYield (obj 0, param = initial_budget: 1 yield_now, 2 force_yield, 3 reset) or one YieldPoint (obj 1, param = interval:
+/// 1 checkpoint, 2 yield_now, 3 reset) driven by hand: suspensions of every operation, then budget() / total_yields() resp. operation_count()
+pub(super) fn fy_hist_case(cx: &mut Ctx, obj: u64, param: usize, ops_in: &[i64], force: bool) {
+    let cell = if obj == 0 { "FiberYield (budget history)" } else { "YieldPoint (history)" };
+    let ops: Vec<i64> = ops_in.iter().cloned().filter(|o| (1..=3).contains(o)).take(600).collect();
+    let param = if obj == 0 { param.min(255) } else { param };
+    let case = json!({"cell": "fyhist", "kind": 23, "obj": obj, "param": param as u64, "ops": ops});
+    cx.sum.eval(cell, &format!("fy {} {} {:?}", obj, param, ops), ops.len() >= 2);
+    cx.sum.cell_status(cell, "M+S");
+    let ov = ops.clone();
+    let r = guarded(move || -> Result<Vec<i64>, String> {
+        use zipora::concurrency::fiber_yield::{FiberYield, YieldConfig, YieldPoint};
+        let log: TLog = Arc::new(Mutex::new(vec![]));
+        let mut obs = vec![];
+        let susp = |log: &TLog| -> i64 { let mut g = log.lock().unwrap(); let n = g.len() as i64; g.clear(); n };
+        if obj == 0 {
+            let fy = FiberYield::with_config(YieldConfig { initial_budget: param as u8, ..YieldConfig::default() });
+            for (i, &o) in ov.iter().enumerate() {
+                match o {
+                    1 => { let mut f: Pin<Box<dyn Future<Output = ()> + '_>> = Box::pin(fy.yield_now()); if drive(&mut f, &log, 8).is_none() { return Err(format!("operation {}: yield_now did not give control back after 8 polls", i)); } }
+                    2 => { let mut f: Pin<Box<dyn Future<Output = ()> + '_>> = Box::pin(fy.force_yield()); if drive(&mut f, &log, 8).is_none() { return Err(format!("operation {}: force_yield did not give control back after 8 polls", i)); } }
+                    _ => fy.reset(),
+                }
+                obs.push(susp(&log)); obs.push(fy.budget() as i64); obs.push(fy.total_yields() as i64);
+            }
+        } else {
+            let yp = YieldPoint::new(param);
+            for (i, &o) in ov.iter().enumerate() {
+                match o {
+                    1 => { let mut f: Pin<Box<dyn Future<Output = ()> + '_>> = Box::pin(yp.checkpoint()); if drive(&mut f, &log, 8).is_none() { return Err(format!("operation {}: checkpoint did not give control back after 8 polls", i)); } }
+                    2 => { let mut f: Pin<Box<dyn Future<Output = ()> + '_>> = Box::pin(yp.yield_now()); if drive(&mut f, &log, 8).is_none() { return Err(format!("operation {}: yield_now did not give control back after 8 polls", i)); } }
+                    _ => yp.reset(),
+                }
+                obs.push(susp(&log)); obs.push(yp.operation_count() as i64);
+            }
+        }
+        Ok(obs)
+    });
+    match r {
+        Err(p) => cx.sum.fail(cell, None, case, &format!("panicked: {}", p)),
+        Ok(Err(e)) => cx.sum.fail(cell, None, case, &e),
+        Ok(Ok(obs)) => cx.coq(23, obj, param as u64, &ops, &obs, &case, force),
+    }
+}
+
 fn mk_blob(i: usize, j: usize) -> Vec<u8> { let mut b = vec![i as u8]; b.extend(std::iter::repeat(j as u8).take(j % 3)); b }
 
 /// one AsyncMemoryBlobStore, a history of operations (see coq/C18/ModelStore.v, kind 21): 2000 + k put_batch of k blobs, 1 put,
@@ -263,6 +367,34 @@ pub(super) fn store_case(cx: &mut Ctx, preset: u64, ops_in: &[i64], force: bool)
 
 pub(super) fn generate(cx: &mut Ctx) {
     let thorough = cx.thorough;
+    // kind 22: executor histories with shutdown through the hook: 1..3 workers, capacities 0..4, the shutdown early / in the middle / last
+    for rep in 0..(if thorough { 400 } else { 80 }) {
+        let mut r = cx.rng.clone();
+        let nw = 1 + r.below(3) as usize;
+        let cap = r.below(5) as usize;
+        let n = 3 + r.below(8) as usize;
+        let at = match rep % 4 { 0 => 0, 1 => n, _ => r.below(n as u64 + 1) as usize };
+        let mut ops: Vec<i64> = vec![];
+        for i in 0..n {
+            if i == at { ops.push(7); }
+            ops.push(match r.below(8) { 0 | 1 | 2 | 3 => 1000 + 2 * r.below(3) as i64 + r.below(2) as i64, 4 | 5 => 10 + r.below(nw as u64) as i64, 6 => 30 + r.below(nw as u64) as i64, _ => 5 });
+        }
+        if at >= n { ops.push(7); }
+        if rep % 2 == 0 { ops.push(1000 + r.below(2) as i64); ops.push(1003); }
+        cx.rng = r;
+        life_hist_case(cx, nw, cap, &ops, false);
+    }
+    // kind 23: FiberYield budgets 0, 1, 2, 16, 255 and YieldPoint intervals 0, 1, 2, 3, 16, 17: histories of 4..40 operations (300 in
+    // one case per object: the u8 budget and the interval wrap many times)
+    for rep in 0..(if thorough { 200 } else { 40 }) {
+        let mut r = cx.rng.clone();
+        let obj = (rep % 2) as u64;
+        let param = if obj == 0 { *r.pick(&[0usize, 1, 2, 16, 255]) } else { *r.pick(&[0usize, 1, 2, 3, 16, 17]) };
+        let n = if rep < 2 { 300 } else { 4 + r.below(37) as usize };
+        let ops: Vec<i64> = (0..n).map(|_| match r.below(10) { 0..=6 => 1, 7 | 8 => 2, _ => 3 }).collect();
+        cx.rng = r;
+        fy_hist_case(cx, obj, param, &ops, false);
+    }
     // kind 21: blob store histories
     for rep in 0..(if thorough { 300 } else { 70 }) {
         let mut r = cx.rng.clone();
